@@ -287,7 +287,13 @@ def check_boundary_rows(rep, rule, fo, fname, f, interp):
             if x is None:
                 raise AnalysisBroken("CubicSpline::%s: cannot decide whether %s is set for %s" % (fname, e["target"], label))
             if x:
-                st.setdefault(label, {})[tuple(canon(i_) for i_ in e["idx"])] = e["value"]
+                v_ = e["value"]
+                if hasattr(v_, "args"):
+                    # a value chosen by the boundary kind (`periodic ? -1 : 1`) is resolved for the case at hand
+                    from vsa.cases import resolve_ite
+                    cds_ = getattr(fo, "conds", {})
+                    v_ = resolve_ite(v_, lambda cs: decide(cds_[cs], None, {"this-case": True}, orc, cds_) if cs in cds_ and "boundaries_" in str(cds_[cs]) else None)
+                st.setdefault(label, {})[tuple(canon(i_) for i_ in e["idx"])] = v_
     o1, o2 = (0, 0) if interp else (S("offset1"), S("offset2"))
     if interp:
         want_normal = {(0, 0): 1, (Nn - 1, Nn - 1): 1}
